@@ -35,6 +35,9 @@ def run(ctx):
     rep.notes['e2e_runs'] = count
     zero_order(ctx, P)
     rep.notes['exhaustive'] = True
+    from . import history
+    history.check_cache_seed(rep, ctx.repo)
+    history.run_cache_scenarios(rep, ctx.repo, 'Derivative', None)
     rep.notes['trusted_base'] = ['python ast', 'ndverif abstract interpreter and numpy summaries',
                                  'convolve1d model (DESIGN section 7)', 'generalised Vandermonde non-singularity']
 
